@@ -2698,6 +2698,8 @@ def _b_filter(it, fn, src):
 def _b_map(it, fn, *srcs):
     if len(srcs) != 1:
         raise Unsupported('map over several iterables')
+    if isinstance(srcs[0], (Opaque, Stream, GenObj)):
+        return MappedStream(fn, srcs[0])        # map() is lazy: nothing is pulled here
     kind, items = iterate(it, srcs[0])
     if kind == 'concrete':
         return PyList([it.call(fn, [x]) for x in items])
